@@ -38,6 +38,8 @@ ASSUMPTIONS = [
     "box => such executions are vacuous",
     "plain recorders on kouri_exact_line_search / nonmonotone_line_search (module attributes) count negative step lengths; they feed the "
     "structural classifier of finding D23 and a REQUIRED minimum, and change no behaviour",
+    "settings_boundary class: tol = 0 violates the module's documented requirement spg_tol < tol; an exception of the solver there (brentq on a NaN "
+    "point built from trSize/|g| = inf at an exactly zero gradient) is classified vacuous; whatever was reported is still checked",
     "path observer (sys.monitoring LINE + frame locals) is evidence only",
 ]
 REQUIRED = {
@@ -51,7 +53,9 @@ REQUIRED = {
         "exit_converged_at_entry": 5, "exit_converged_in_loop": 50, "exit_radius_too_small": 3, "exit_iteration_cap": 10,
         "step_cauchy_pt": 3, "step_boundary": 50, "step_interior_": 20, "gcp_forward": 100, "gcp_backtrack": 30,
         "spg_monotone": 30, "spg_nonmonotone": 30, "contract_line_search_kouri_negative_step": 40, "contract_line_search_kouri_calls": 1000,
-        "contract_line_search_nonmonotone_calls": 1000, "class:monotone_small_radius": 120, "farflat_flag_true": 4,
+        "contract_line_search_nonmonotone_calls": 1000, "class:monotone_small_radius": 120, "class:load_sequence": 30, "class:settings_boundary": 30, "load_sequences": 30,
+        "sequence_solves": 60, "sequence_p_changes": 40, "p_change_with_objective_drop_at_start": 15, "cold_restart_from_returned_array": 25,
+        "cold_restart_after_converged_solve_with_objective_drop": 5, "tol_squared_is_zero_solves": 30, "exactly_stationary_iterate_while_unconverged": 15, "farflat_flag_true": 4,
         "box_finite": 20, "box_one_sided": 15, "box_free": 10, "box_degenerate": 15, "box_mixed": 20,
         "start_interior": 30, "start_face": 30, "start_vertex": 20, "entry_direct": 60, "entry_solve": 25,
         "returned_on_a_bound": 20, "reported_on_a_bound": 100,
@@ -68,7 +72,7 @@ REQUIRED = {
                  "step_cauchy_pt": 200, "step_boundary": 5000, "step_interior_": 20000, "farflat_flag_true": 150,
                  "contract_line_search_kouri_negative_step": 100},
 }
-WATCHDOG_S = {"quick": 1500, "thorough": 4 * 3600}
+WATCHDOG_S = {"quick": 3600, "thorough": 6 * 3600}
 MAX_VACUOUS_FRACTION = 0.25
 
 D1_KEY = "D1_spg_convergence_test_on_trial_point_precedes_acceptance"
@@ -133,6 +137,17 @@ def build_cases(tier, seed):
         add("monotone_small_radius", i, family=("quartic", "rosen", "wells", "quad", "cos")[i % 5], n=(2, 2, 3, 5, 8)[(i // 5) % 5],
             box=("one_sided", "finite", "mixed")[i % 3], start=("vertex", "face")[i % 2], entry="direct", nonmonotone=False,
             settings="small_radius", incremental=False)
+    # ONE Objective object over 3-5 consecutive bound-constrained solves with changing parameters, restarts from the returned array
+    for i in range(40 * mult):
+        add("load_sequence", i, family=("valley", "quartic", "valley", "convex_nq")[i % 4], n=(2, 3, 5, 2)[(i // 4) % 4],
+            box=("finite", "one_sided", "mixed", "free")[(i // 2) % 4], driver=("solve", "hand", "mixed", "solve_warm")[i % 4],
+            interleave=("none", "other_point", "none", "other_p_same_point")[(i // 3) % 4], nonmonotone=bool((i // 5) % 2 == 0),
+            incremental=False, settings="default" if i % 3 else "mild", cost=2.5)
+    # tol = 0 / below the underflow of tol**2, exactly representable box-QPs (iterates land bit-exactly on the optimum / a vertex)
+    for i in range(48 * mult):
+        add("settings_boundary", i, family="quad", n=(1, 2, 3, 5)[(i // 2) % 4], variant=("interior_opt", "vertex_opt", "face_opt", "start_on_opt")[i % 4],
+            tol=(0.0, 1e-200, 0.0, 1e-170)[(i // 4) % 4], nonmonotone=bool((i // 3) % 2), incremental=False, entry=("direct", "solve")[(i // 5) % 2],
+            cost=0.8)
     # direct calls (bundles)
     nb = 8 if tier == "quick" else 256
     for i in range(nb):
@@ -232,6 +247,158 @@ def fold_contract_counts(res, K, before, insitu):
     return d
 
 
+def spg_one_solve(res, case, obj, fam, p_req, x0, lb, ub, settings, entry, box_kind, start_kind, p_hand=None):
+    """Run ONE bound-constrained solve on `obj` (possibly an Objective with a history) and check feasibility, descent and
+    the flag under p_req.  entry: 'direct' (bound_constrained_trust_region_minimize; p_hand installed by hand when given),
+    'solve' / 'solve_warm' (TrustRegionSPG.solve).  x0 may be the jax array a previous solve returned (passed untouched).
+    Returns (x_ret numpy, x_ret as returned, flag, start, recorder, exit) or None when the execution is classified already."""
+    import jax.numpy as np
+    from vlib import monitors_c01 as M
+    observer, K, spg = monitors()
+    tol = float(settings.tol)
+    log0 = len(obj.log)
+    obj.gradient_budget = obj.gradient_calls + 4 * int(settings.max_trust_iters) + 10
+    rec = M.CallbackRecorder()
+    res.count("solves")
+    res.count("entry_" + ("direct" if entry == "direct" else "solve"))
+    res.count("box_" + box_kind)
+    res.count("start_" + start_kind)
+    res.count("family_" + fam)
+    res.count("spg_nonmonotone" if case["nonmonotone"] else "spg_monotone")
+    if observer is not None:
+        observer.reset()
+    before = K.snapshot()
+    bounds = np.column_stack((np.asarray(lb), np.asarray(ub)))
+    raised = None
+    try:
+        xin = x0 if hasattr(x0, "at") else np.asarray(x0)
+        if entry == "direct":
+            if p_hand is not None:
+                obj.p = p_hand          # hand-rolled driver: install the requested parameters, then call the minimiser
+            obj.update_precond(xin)
+            n_pre = len(obj.log)
+            x_ret, flag = spg.bound_constrained_trust_region_minimize(obj, xin, bounds, settings, callback=rec)
+        else:
+            n_pre = log0
+            x_ret, flag = spg.solve(obj, xin, p_req, np.asarray(lb), np.asarray(ub), settings, callback=rec,
+                                    useWarmStart=(entry == "solve_warm"), updatePrecond=True)
+    except K.SPGContractError as e:
+        raised = e
+    except RuntimeError as e:
+        if "No acceptable Cauchy point" in str(e):
+            res.count("cauchy_point_runtime_error")
+            cd = fold_contract_counts(res, K, before, True)
+            if observer is not None:
+                M.summarize(observer, res, (M.SPG_EXIT_NAMES, M.SPG_SUB_NAMES, M.PTR_NAMES))
+            # what was reported up to here is still subject to feasibility / descent
+            check_partial(res, fam, p_req, x0, rec, lb, ub, case, int(cd.get("line_search_negative_step", 0)))
+            res.vacuous("RuntimeError: No acceptable Cauchy point (admitted outcome)")
+            return None
+        raised = e
+    except M.LogicalBudgetExceeded as e:
+        res.violate("solver_terminates", {"info": str(e), "max_trust_iters": int(settings.max_trust_iters)})
+        return None
+    except Exception as e:  # noqa
+        raised = e
+    if raised is not None and not isinstance(raised, K.SPGContractError):
+        res.count("solver_raised")
+        if obj.all_evaluations_finite(log0) and not isinstance(raised, MemoryError):
+            res.violate("solver_returns", {"exception": type(raised).__name__, "message": str(raised)[:300], "n_reported": len(rec.xs),
+                                           "family": fam, "box": box_kind})
+            check_partial(res, fam, p_req, x0, rec, lb, ub, case)
+        else:
+            res.vacuous("solver raised %s after a non-finite evaluation: %s" % (type(raised).__name__, str(raised)[:120]))
+        return None
+    cdelta = fold_contract_counts(res, K, before, True)
+    negative_steps = int(cdelta.get("line_search_negative_step", 0))
+    exit_taken = None
+    if observer is not None:
+        exit_taken = M.summarize(observer, res, (M.SPG_EXIT_NAMES, M.SPG_SUB_NAMES, M.PTR_NAMES))
+    if raised is not None:
+        res.violate("insitu_" + raised.clause, {"detail": raised.detail, "n_reported": len(rec.xs), "family": fam, "box": box_kind})
+        check_partial(res, fam, p_req, x0, rec, lb, ub, case)
+        return None
+    flag = bool(flag)
+
+    # the start the minimiser was really given (after the optional warm start of `solve`)
+    start = onp.asarray(x0, float)
+    if entry != "direct":
+        g_pts = [x for pos, kind, x in obj.points if kind == "gradient" and pos >= log0]
+        if g_pts:
+            start = g_pts[0]
+        if K.box_excess(start, lb, ub) > 1.0 or not onp.all(onp.isfinite(start)):
+            res.count("warm_start_left_the_box")
+            res.vacuous("warm start moved the start point out of the box (hypothesis 'feasible start' not met)")
+            return None
+
+    fj, gj = own_functions(fam)
+    pts = [start] + list(rec.xs)
+    vals = [float(fj(np.asarray(x), p_req)) for x in pts]
+    res.count("trace_points_checked", len(rec.xs))
+
+    # feasibility of every reported iterate and of the returned point
+    x_ret_jax = x_ret
+    x_ret = onp.asarray(x_ret, float)
+    for k, x in enumerate(list(rec.xs) + [x_ret]):
+        # every iterate is FORMED as previous + step in floating point: the previous iterate's magnitude enters the slack
+        ex = K.box_excess(x, lb, ub, base=pts[k] if k < len(rec.xs) else (pts[-2] if len(pts) > 1 else pts[-1]))
+        # structural key of D23 (fixed in 946269a; kept so that a regression is named): feasibility fails in a solve running the MONOTONE (Kouri exact) step-length rule during which
+        # that rule was observed to return a negative step length (only min(1, alpha) is applied, never max(0, .))
+        mech = D23_KEY if (not case["nonmonotone"] and negative_steps > 0) else None
+        ok = res.bound("feasibility_excess_over_slack", ex, 1.0,
+                       {"which": "returned" if k == len(rec.xs) else "reported %d of %d" % (k + 1, len(rec.xs)), "violation_abs": K.box_violation_abs(x, lb, ub),
+                        "box": box_kind, "family": fam, "flag": flag, "monotone_spg": not case["nonmonotone"],
+                        "negative_step_lengths_observed": negative_steps}, mechanism=mech)
+        if not ok and mech:
+            res.count("d23_infeasible_iterate_after_negative_step_length")
+        res.count("feasibility_points_checked")
+        if onp.any((x == lb) | (x == ub)):
+            res.count("reported_on_a_bound")
+    if onp.any((x_ret == lb) | (x_ret == ub)):
+        res.count("returned_on_a_bound")
+    same = bool(rec.xs) and onp.array_equal(x_ret, rec.xs[-1], equal_nan=True) or (not rec.xs and onp.array_equal(x_ret, start))
+    res.count("returned_is_last_reported" if same else "returned_differs_from_last_reported")
+
+    # descent
+    all_finite = obj.all_evaluations_finite(n_pre)
+    if not case["incremental"]:
+        last_call_is_gradient = bool(obj.log) and obj.log[-1][0] == "gradient"
+        for i in range(1, len(vals)):
+            a, bb = vals[i - 1], vals[i]
+            res.count("descent_pairs_checked")
+            bad = False
+            if math.isfinite(a) and math.isfinite(bb):
+                bad = not res.ratio("descent_increase_over_slack", max(0.0, bb - a), descent_slack(a, bb))
+            elif all_finite:
+                bad = True
+            if bad:
+                final = (i == len(vals) - 1)
+                mech = None
+                if final and flag and last_call_is_gradient:
+                    mech = D1_KEY
+                    res.count("d1_final_uphill_flag_true")
+                res.violate("descent", {"position": i, "of": len(vals) - 1, "f_prev": a, "f_next": bb, "increase": bb - a, "flag": flag,
+                                        "final": final, "last_call_is_gradient": last_call_is_gradient, "family": fam}, mechanism=mech)
+    else:
+        res.count("descent_not_asserted_incremental_mode")
+
+    # honest flag: projected-gradient measure recomputed independently
+    if flag:
+        g = onp.asarray(gj(np.asarray(x_ret), p_req), float)
+        chi = float(onp.linalg.norm(onp.clip(x_ret - g, lb, ub) - x_ret))
+        res.bound("flag_true_projected_gradient", chi, tol * (1 + 1e-9), {"tol": tol, "chi": chi, "family": fam, "box": box_kind})
+        res.count("flag_true_checked")
+        if float(onp.linalg.norm(g)) >= tol:
+            # success with a non-zero bound multiplier: only the PROJECTED measure can have produced this flag
+            res.count("flag_true_projection_decisive")
+            if bool(obj.log) and obj.log[-1][0] == "gradient":
+                res.count("flag_true_projection_decisive_in_loop")     # ... by the in-loop convergence test on the trial point
+    else:
+        res.count("flag_false_seen")
+
+    return x_ret, x_ret_jax, flag, start, rec, exit_taken
+
+
 def run_solve_case(case, res):
     import jax.numpy as np
     from optimism import Objective as ObjMod
@@ -291,140 +458,10 @@ def run_solve_case(case, res):
 
     Rec = M.recording_objective()
     obj = Rec(G.family(fam), np.asarray(x0), p_init)
-    obj.gradient_budget = 4 * int(settings.max_trust_iters) + 10
-    rec = M.CallbackRecorder()
-    res.count("solves")
-    res.count("entry_" + ("direct" if entry == "direct" else "solve"))
-    res.count("box_" + box_kind)
-    res.count("start_" + start_kind)
-    res.count("family_" + fam)
-    res.count("spg_nonmonotone" if case["nonmonotone"] else "spg_monotone")
-    if observer is not None:
-        observer.reset()
-    before = K.snapshot()
-    bounds = np.column_stack((np.asarray(lb), np.asarray(ub)))
-    raised = None
-    try:
-        if entry == "direct":
-            obj.update_precond(np.asarray(x0))
-            n_pre = len(obj.log)
-            x_ret, flag = spg.bound_constrained_trust_region_minimize(obj, np.asarray(x0), bounds, settings, callback=rec)
-        else:
-            n_pre = 0
-            x_ret, flag = spg.solve(obj, np.asarray(x0), p_req, np.asarray(lb), np.asarray(ub), settings, callback=rec,
-                                    useWarmStart=(entry == "solve_warm"), updatePrecond=True)
-    except K.SPGContractError as e:
-        raised = e
-    except RuntimeError as e:
-        if "No acceptable Cauchy point" in str(e):
-            res.count("cauchy_point_runtime_error")
-            cd = fold_contract_counts(res, K, before, True)
-            if observer is not None:
-                M.summarize(observer, res, (M.SPG_EXIT_NAMES, M.SPG_SUB_NAMES, M.PTR_NAMES))
-            # what was reported up to here is still subject to feasibility / descent
-            check_partial(res, fam, p_req, x0, rec, lb, ub, case, int(cd.get("line_search_negative_step", 0)))
-            res.vacuous("RuntimeError: No acceptable Cauchy point (admitted outcome)")
-            return res
-        raised = e
-    except M.LogicalBudgetExceeded as e:
-        res.violate("solver_terminates", {"info": str(e), "max_trust_iters": int(settings.max_trust_iters)})
+    out = spg_one_solve(res, case, obj, fam, p_req, x0, lb, ub, settings, entry, box_kind, start_kind)
+    if out is None:
         return res
-    except Exception as e:  # noqa
-        raised = e
-    if raised is not None and not isinstance(raised, K.SPGContractError):
-        res.count("solver_raised")
-        if obj.all_evaluations_finite(0) and not isinstance(raised, MemoryError):
-            res.violate("solver_returns", {"exception": type(raised).__name__, "message": str(raised)[:300], "n_reported": len(rec.xs),
-                                           "family": fam, "box": box_kind})
-            check_partial(res, fam, p_req, x0, rec, lb, ub, case)
-        else:
-            res.vacuous("solver raised %s after a non-finite evaluation: %s" % (type(raised).__name__, str(raised)[:120]))
-        return res
-    cdelta = fold_contract_counts(res, K, before, True)
-    negative_steps = int(cdelta.get("line_search_negative_step", 0))
-    exit_taken = None
-    if observer is not None:
-        exit_taken = M.summarize(observer, res, (M.SPG_EXIT_NAMES, M.SPG_SUB_NAMES, M.PTR_NAMES))
-    if raised is not None:
-        res.violate("insitu_" + raised.clause, {"detail": raised.detail, "n_reported": len(rec.xs), "family": fam, "box": box_kind})
-        check_partial(res, fam, p_req, x0, rec, lb, ub, case)
-        return res
-    flag = bool(flag)
-
-    # the start the minimiser was really given (after the optional warm start of `solve`)
-    start = onp.asarray(x0, float)
-    if entry != "direct":
-        g_pts = [x for pos, kind, x in obj.points if kind == "gradient"]
-        if g_pts:
-            start = g_pts[0]
-        if K.box_excess(start, lb, ub) > 1.0 or not onp.all(onp.isfinite(start)):
-            res.count("warm_start_left_the_box")
-            res.vacuous("warm start moved the start point out of the box (hypothesis 'feasible start' not met)")
-            return res
-
-    fj, gj = own_functions(fam)
-    pts = [start] + list(rec.xs)
-    vals = [float(fj(np.asarray(x), p_req)) for x in pts]
-    res.count("trace_points_checked", len(rec.xs))
-
-    # feasibility of every reported iterate and of the returned point
-    x_ret = onp.asarray(x_ret, float)
-    for k, x in enumerate(list(rec.xs) + [x_ret]):
-        # every iterate is FORMED as previous + step in floating point: the previous iterate's magnitude enters the slack
-        ex = K.box_excess(x, lb, ub, base=pts[k] if k < len(rec.xs) else (pts[-2] if len(pts) > 1 else pts[-1]))
-        # structural key of D23 (fixed in 946269a; kept so that a regression is named): feasibility fails in a solve running the MONOTONE (Kouri exact) step-length rule during which
-        # that rule was observed to return a negative step length (only min(1, alpha) is applied, never max(0, .))
-        mech = D23_KEY if (not case["nonmonotone"] and negative_steps > 0) else None
-        ok = res.bound("feasibility_excess_over_slack", ex, 1.0,
-                       {"which": "returned" if k == len(rec.xs) else "reported %d of %d" % (k + 1, len(rec.xs)), "violation_abs": K.box_violation_abs(x, lb, ub),
-                        "box": box_kind, "family": fam, "flag": flag, "monotone_spg": not case["nonmonotone"],
-                        "negative_step_lengths_observed": negative_steps}, mechanism=mech)
-        if not ok and mech:
-            res.count("d23_infeasible_iterate_after_negative_step_length")
-        res.count("feasibility_points_checked")
-        if onp.any((x == lb) | (x == ub)):
-            res.count("reported_on_a_bound")
-    if onp.any((x_ret == lb) | (x_ret == ub)):
-        res.count("returned_on_a_bound")
-    same = bool(rec.xs) and onp.array_equal(x_ret, rec.xs[-1], equal_nan=True) or (not rec.xs and onp.array_equal(x_ret, start))
-    res.count("returned_is_last_reported" if same else "returned_differs_from_last_reported")
-
-    # descent
-    all_finite = obj.all_evaluations_finite(n_pre)
-    if not case["incremental"]:
-        last_call_is_gradient = bool(obj.log) and obj.log[-1][0] == "gradient"
-        for i in range(1, len(vals)):
-            a, bb = vals[i - 1], vals[i]
-            res.count("descent_pairs_checked")
-            bad = False
-            if math.isfinite(a) and math.isfinite(bb):
-                bad = not res.ratio("descent_increase_over_slack", max(0.0, bb - a), descent_slack(a, bb))
-            elif all_finite:
-                bad = True
-            if bad:
-                final = (i == len(vals) - 1)
-                mech = None
-                if final and flag and last_call_is_gradient:
-                    mech = D1_KEY
-                    res.count("d1_final_uphill_flag_true")
-                res.violate("descent", {"position": i, "of": len(vals) - 1, "f_prev": a, "f_next": bb, "increase": bb - a, "flag": flag,
-                                        "final": final, "last_call_is_gradient": last_call_is_gradient, "family": fam}, mechanism=mech)
-    else:
-        res.count("descent_not_asserted_incremental_mode")
-
-    # honest flag: projected-gradient measure recomputed independently
-    if flag:
-        g = onp.asarray(gj(np.asarray(x_ret), p_req), float)
-        chi = float(onp.linalg.norm(onp.clip(x_ret - g, lb, ub) - x_ret))
-        res.bound("flag_true_projected_gradient", chi, tol * (1 + 1e-9), {"tol": tol, "chi": chi, "family": fam, "box": box_kind})
-        res.count("flag_true_checked")
-        if float(onp.linalg.norm(g)) >= tol:
-            # success with a non-zero bound multiplier: only the PROJECTED measure can have produced this flag
-            res.count("flag_true_projection_decisive")
-            if bool(obj.log) and obj.log[-1][0] == "gradient":
-                res.count("flag_true_projection_decisive_in_loop")     # ... by the in-loop convergence test on the trial point
-    else:
-        res.count("flag_false_seen")
+    x_ret, x_ret_jax, flag, start, rec, exit_taken = out
 
     distinct = 0
     prev = start
@@ -652,6 +689,152 @@ def run_cauchy_direct(case, res):
     return res
 
 
+def run_sequence_case(case, res):
+    """Shared-object history: one Objective, several solves with changing load (slot 0) / design (slot 2), each started from
+    exactly the array the previous solve returned, on a fixed box."""
+    import jax.numpy as np
+    from optimism import Objective as ObjMod
+    from vlib import monitors_c01 as M
+    from vlib.common import loguniform
+    from vlib.gen import c01_objectives as G
+    from vlib.gen import c05_boxes as B
+
+    observer, K, spg = monitors()
+    rng = rng_of(case["seed"])
+    fam, n = case["family"], int(case["n"])
+    nsteps = int(rng.integers(3, 6))
+    if fam == "valley":
+        A = onp.zeros((n, n))
+        c = [float(loguniform(rng, 0.3, 1.0)), 1.0]
+        x0 = onp.full(n, 1.0) + rng.standard_normal(n) * 0.3
+        direction = onp.zeros(n)
+        direction[0] = 1.0
+        b = onp.zeros(n)
+        design = 1.0
+        step_scale = 1.0
+    else:
+        prob = G.gen_problem(fam, n, rng, {"start": "random", "cond": 10.0 ** rng.uniform(0, 3)})
+        A, b, c, x0 = prob["A"], onp.array(prob["b"]), prob["c"], onp.array(prob["x0"])
+        direction = rng.standard_normal(n)
+        direction /= onp.linalg.norm(direction)
+        design = None
+        step_scale = float(loguniform(rng, 0.3, 3.0))
+    lb, ub = B.gen_box(case["box"], x0, rng, width_decades=(-0.5, 1.0))
+    x0 = onp.clip(x0, lb, ub)
+
+    def params(bv, dv):
+        d = np.asarray(G.pack(A, bv, c))
+        return ObjMod.Params(bc_data=d) if dv is None else ObjMod.Params(bc_data=d, design_data=np.asarray([dv]))
+
+    kw = {"debug_info": False, "spg_use_nonmonotone": bool(case["nonmonotone"]), "max_trust_iters": 40}
+    if case["settings"] == "mild":
+        kw.update(tr_size=float(loguniform(rng, 0.5, 8.0)), tol=float(loguniform(rng, 1e-9, 1e-6)), max_spg_iters=int(_pick(rng, (10, 25))))
+    settings = spg.get_settings(**kw)
+    Rec = M.recording_objective()
+    p_prev = params(b + 0.37 * direction, None if design is None else design * 1.3)
+    obj = Rec(G.family(fam), np.asarray(x0), p_prev)
+    fj, gj = own_functions(fam)
+    x_cur = np.asarray(x0)
+    res.count("load_sequences")
+    prev_flag = None
+    for k in range(nsteps):
+        if k > 0:
+            if design is not None and rng.random() < 0.25:
+                design = design * float(rng.uniform(0.7, 1.4))
+                res.count("sequence_p_change_design")
+            else:
+                b = b + direction * step_scale * float(rng.uniform(0.5, 1.5)) * (-1.0 if rng.random() < 0.2 else 1.0)
+        p_k = params(b, design)
+        drv = case["driver"] if case["driver"] != "mixed" else _pick(rng, ("solve", "hand", "solve_warm"))
+        if k > 0 and case["interleave"] == "other_point":
+            xo = onp.clip(onp.asarray(x_cur) + rng.standard_normal(n), lb, ub)
+            obj.value(np.asarray(xo))
+            obj.gradient(np.asarray(xo))
+            res.count("interleaved_other_point")
+        elif k > 0 and case["interleave"] == "other_p_same_point":
+            keep = obj.p
+            obj.p = params(b - 2.0 * step_scale * direction, None if design is None else design * 0.8)
+            obj.value(x_cur)
+            obj.gradient(x_cur)
+            obj.p = keep
+            res.count("interleaved_other_p_same_point")
+        if k > 0:
+            res.count("sequence_p_changes")
+            if float(fj(x_cur, p_k)) < float(fj(x_cur, p_prev)):
+                res.count("p_change_with_objective_drop_at_start")
+                if drv in ("solve", "hand") and prev_flag:
+                    res.count("cold_restart_after_converged_solve_with_objective_drop")
+            if drv in ("solve", "hand"):
+                res.count("cold_restart_from_returned_array")
+        res.count("sequence_solves")
+        res.count("sequence_driver_" + drv)
+        out = spg_one_solve(res, case, obj, fam, p_k, x_cur, lb, ub, settings, "direct" if drv == "hand" else drv, case["box"], "interior",
+                            p_hand=p_k if drv == "hand" else None)
+        if out is None:
+            return res
+        x_np, x_jax, flag, start, rec, exit_taken = out
+        if K.box_excess(x_np, lb, ub) > 1.0 or not onp.all(onp.isfinite(x_np)):
+            break
+        x_cur = x_jax
+        p_prev = p_k
+        prev_flag = flag
+    res.nontrivial = True
+    return res
+
+
+def run_boundary_case(case, res):
+    """tol = 0 (or so small that tol**2 underflows) on exactly representable box-QPs: diagonal Hessian with entries 1/4, 1, 4,
+    16, integer optimum / bounds / start, so iterates land bit-exactly on stationary points of the bound-constrained problem."""
+    import jax.numpy as np
+    from optimism import Objective as ObjMod
+    from vlib import monitors_c01 as M
+    from vlib.gen import c01_objectives as G
+
+    observer, K, spg = monitors()
+    rng = rng_of(case["seed"])
+    n, variant = int(case["n"]), case["variant"]
+    a = onp.array([_pick(rng, (0.25, 1.0, 4.0, 16.0)) for _ in range(n)])
+    if rng.random() < 0.5:
+        a[:] = a[0]
+    xu = rng.integers(-4, 5, n).astype(float)          # unconstrained minimiser
+    lb = xu - rng.integers(1, 4, n).astype(float)
+    ub = xu + rng.integers(1, 4, n).astype(float)
+    if variant in ("vertex_opt", "face_opt"):
+        m = onp.ones(n, bool) if variant == "vertex_opt" else (rng.random(n) < 0.5)
+        if not m.any():
+            m[0] = True
+        side = rng.random(n) < 0.5
+        lb = onp.where(m & side, xu + 1.0, lb)          # unconstrained minimiser below the lower bound -> active lower bound
+        ub = onp.where(m & ~side, xu - 1.0, ub)
+        lb = onp.where(m & ~side, ub - 3.0, lb)
+        ub = onp.where(m & side, lb + 3.0, ub)
+    xopt = onp.clip(xu, lb, ub)                          # separable problem: the box optimum is the clipped unconstrained one
+    x0 = onp.clip(xopt + rng.integers(-2, 3, n).astype(float), lb, ub)
+    if variant == "start_on_opt":
+        x0 = onp.array(xopt)
+    data = G.pack(onp.diag(a), a * xu, [0.0])
+    settings = spg.get_settings(tol=float(case["tol"]), max_trust_iters=int(_pick(rng, (10, 30))), debug_info=False,
+                                spg_use_nonmonotone=bool(case["nonmonotone"]))
+    res.count("tol_squared_is_zero_solves")
+    res.count("exact_box_qp_" + variant)
+    p_req = ObjMod.Params(np.asarray(data))
+    p_init = p_req if case["entry"] == "direct" else ObjMod.Params(np.asarray(G.pack(onp.diag(a), a * xu + 1.0, [0.0])))
+    Rec = M.recording_objective()
+    obj = Rec(G.family("quad"), np.asarray(x0), p_init)
+    out = spg_one_solve(res, case, obj, "quad", p_req, x0, lb, ub, settings, case["entry"], "finite", "interior")
+    if out is None:
+        return res
+    x_np, x_jax, flag, start, rec, exit_taken = out
+    fj, gj = own_functions("quad")
+    for x in [start] + list(rec.xs):
+        g = onp.asarray(gj(np.asarray(x), p_req))
+        if onp.all(onp.isfinite(x)) and not onp.any(onp.clip(x - g, lb, ub) - x):
+            res.count("exactly_stationary_iterate_while_unconverged")
+            break
+    res.nontrivial = True
+    return res
+
+
 def run_case(case):
     res = Res(case)
     cls = case["cls"]
@@ -663,6 +846,10 @@ def run_case(case):
         return run_ptr_direct(case, res, far=True)
     if cls == "cauchy_direct":
         return run_cauchy_direct(case, res)
+    if cls == "load_sequence":
+        return run_sequence_case(case, res)
+    if cls == "settings_boundary":
+        return run_boundary_case(case, res)
     return run_solve_case(case, res)
 
 
